@@ -50,8 +50,12 @@ def run(ctx):
         assumptions=["no storage errors (a failed WAL append is only logged by BroadcastMessage and the message is "
                      "published anyway)",
                      "no other node signs with this node's identity (ProcessReceive is not even wired in at this commit)",
-                     "after a restart the participant never runs an instance below (latest certificate - 5): the "
-                     "certificate store is durable (C09/C10) and GPBFT resumes after the latest certificate"],
+                     "host level (…_host theorems): the certificate store is durable (C09/C10) so `latest` never "
+                     "decreases; a message builder handed to the embedder is signed in the process lifetime that "
+                     "requested it (the `requests at or above the purge epoch` hypothesis of the Equiv-level theorems is "
+                     "then derived: restart at latest+1, purge at cert-5, participant instance monotone); with a "
+                     "builder kept across Stop/Start of the SAME F3 object the model equivocates (sharpness example, "
+                     "DESIGN §12.9) — process restarts cannot do that"],
         search=search,
         partial=[],
         extra_cov={"filter_state_spaces": spaces, "exhaustive": bool(spaces) and all("complete=true" in s for s in spaces)},
